@@ -1,4 +1,5 @@
-\* thorough: five values per family, maps with up to 4 entries in four code spaces, chains in two
+\* thorough: maps with up to 4 entries in four code spaces (one more value per family in the mixed space),
+\* chains of up to 3 layers with up to 3 entries
 SPECIFICATION Spec
 CONSTANTS B = 4
   WITH_GAPS = TRUE
@@ -12,11 +13,12 @@ CONSTANTS B = 4
   Mode = "map"
   SpaceNames = {"s1", "s2", "mix", "mixw"}
   FamNames = {"cid", "tu1", "tuEdge", "tuMix"}
-  ChainSpaces = {"s1", "mix"}
+  ChainSpaces = {"s1"}
   MaxTop <- TopFour
   MaxTotal = 3
   MaxDepth = 3
   Wide = TRUE
+  WideSpaces = {"mix"}
   NotdefOn = TRUE
   MaxRect = 0
 INVARIANTS LookupOK AllOK EmbedOK CompressOK
